@@ -462,12 +462,24 @@ func TestHistories(t *testing.T) {
 			}
 			switch {
 			case r < 30: // inbound
-				p := w.pick(rng, func(p *tpeer) bool { return notLive(p) && !p.boot && p.bin == focus })
+				// 1 in 4 inbound events may come from a remote node that carries the boot-node flag
+				// (it is a full node all the same: only OUTBOUND connections to boot nodes are not counted)
+				bootToo := rng.Intn(4) == 0
+				p := w.pick(rng, func(p *tpeer) bool { return notLive(p) && (!p.boot || bootToo) && p.bin == focus })
 				if p == nil || rng.Intn(3) == 0 {
-					p = w.pick(rng, func(p *tpeer) bool { return notLive(p) && !p.boot })
+					p = w.pick(rng, func(p *tpeer) bool { return notLive(p) && (!p.boot || bootToo) })
+				}
+				if bootToo {
+					if q := w.pick(rng, func(p *tpeer) bool { return notLive(p) && p.boot }); q != nil && rng.Intn(2) == 0 {
+						p = q
+					}
 				}
 				if p == nil {
 					continue
+				}
+				if p.boot {
+					evs["inbound-from-boot-flagged-node"] = true
+					w.st["inbound_from_boot_flagged_nodes"]++
 				}
 				force := rng.Intn(5) == 0
 				w.inbound(c, p, force, rng.Intn(2) == 0)
